@@ -52,6 +52,9 @@ RICH_EN = {
     "fk_to_sub": "$t(menu.file.open) / $t(menu.edit)",
     "fk_two": "$t(items, {\"count\": \"{{ a }}\"}) / $t(place, {\"count\": \"{{ b }}\"})",
     "fk_chain": "[$t(fk_plain)]",
+    "cyc_a": "$t(cyc_b) from a",
+    "cyc_b": "end of chain b",
+    "cyc_c": "$t(cyc_a, {\"x\": \"$t(cyc_b)\"}) from c",
     "fkp_one": "$t(plain): one",
     "fkp_other": "$t(greeting, {\"name\": \"{{ count }}\"}) many",
     "fkr": [["$t(plain) zero", 0], ["$t(plain) {{ count }}"]],
@@ -112,6 +115,9 @@ RICH_FR = {
     "fk_to_sub": "$t(menu.file.open) / $t(menu.edit)",
     "fk_two": "$t(items, {\"count\": \"{{ a }}\"}) / $t(place, {\"count\": \"{{ b }}\"})",
     "fk_chain": "[$t(fk_plain)]",
+    "cyc_a": "fin de chaîne a",
+    "cyc_b": "$t(cyc_c) depuis b",
+    "cyc_c": "$t(cyc_a) depuis c",
     "fkp_one": "$t(plain) : un",
     "fkp_other": "$t(plain) : {{ count }}",
     "fkr": [["$t(plain) zéro", 0], ["$t(plain) {{ count }}"]],
